@@ -18,6 +18,10 @@ WIRE_RULE = ("suite wire: seeded request streams over the C01 alphabet (built-in
 WIRE_TRUST = [
     "the decision which byte strings are requests (UTF-8 throughout, then serde_json on the text — the two calls handle() makes) is a parameter `dec` of the model, delivered per case by the real std/serde_json; P_C06 additionally judges UTF-8 validity on the raw bytes itself",
     "std::io::BufReader is modelled as a buffer refilled by an arbitrary read schedule (theorems hold for every schedule)",
+    "tools/extract.d/wire.py (pattern-based translator): reply_struct's chain of early returns in source order, its `continues` mark, "
+    "reply_parameters' early return, the flag tests of is_oneway / wants_more, the built-in interface name and the library's four error "
+    "names are transcribed from varlink/src/lib.rs into Model/ExtractedWire.lean on every run; Lemmas/WireExtracted.lean proves the "
+    "hand-written gate of Model/Wire.lean equal to it (C03_names_are_source, C04_gate_is_source, C05_gate_is_source)",
 ]
 
 
